@@ -450,6 +450,9 @@ func TestVerif_C36_Replay(t *testing.T) {
 					if obs.Claimed {
 						claims++
 					}
+					if st.Get("claimed").Bool() {
+						rep.Count("claims_expected", 1)
+					}
 					if f := c36Compare(st, obs); f != "" {
 						key := fmt.Sprintf("step:%s:%s", st.Get("kind").Str(), f)
 						what := fmt.Sprintf("execution %d of the sequence (specification: %s) differs from the specification in %s", i+1, st.Get("kind").Str(), f)
